@@ -181,6 +181,10 @@ M = [
     ('C02', 'PGPKey.revoker', 'pgpy.pgp', "        prefs['revocable'] = False\n        return self._sign(self, sig, **prefs)", "        return self._sign(self, sig, **prefs)"),
     ('C02', 'PGPKey.revoker', 'pgpy.pgp', "                                         algorithm=revoker.key_algorithm,\n                                         fingerprint=revoker.fingerprint,", "                                         algorithm=self.key_algorithm,\n                                         fingerprint=revoker.fingerprint,"),
     ('C02', 'PGPKey.revoker[sens', 'pgpy.pgp', "        keyclass = RevocationKeyClass.Normal | (RevocationKeyClass.Sensitive if sensitive else 0x00)", "        keyclass = RevocationKeyClass.Normal"),
+    ('C19', '_add_alias', 'pgpy.pgp', "        elif alias in self and pkid in set(m[alias] for m in self._aliases if alias in m):", "        elif alias in self and pkid not in set(m[alias] for m in self._aliases if alias in m):"),
+    ('C19', '_add_alias', 'pgpy.pgp', "            self._aliases[adepth][alias] = pkid\n            self._sort_alias(alias)", "            self._aliases[0][alias] = pkid\n            self._sort_alias(alias)"),
+    ('C19', '_add_alias', 'pgpy.pgp', "            self._aliases[adepth][alias] = pkid\n            self._sort_alias(alias)", "            self._aliases[adepth][alias] = pkid"),
+    ('C19', '_add_alias', 'pgpy.pgp', "        if alias not in self:\n            self._aliases[-1][alias] = pkid", "        if alias not in self:\n            pass"),
     ('C10', 'from_blob', 'pgpy.types', "            po = obj.parse(bytearray(blob, 'latin-1'))", "            po = obj.parse(bytearray(blob, 'utf-8'))"),
     ('C10', 'from_blob', 'pgpy.types', "        if po is not None:\n            return (obj, po)\n\n        return obj  # pragma: no cover\n\n    def __init__", "        return (obj, po)\n\n    def __init__"),
     ('C04', 'SKEData.decrypt', 'pgpy.packet.packets', "        iv_resync = bytes(self.ct[2:block_size_bytes + 2])", "        iv_resync = bytes(self.ct[0:block_size_bytes])"),
